@@ -288,11 +288,11 @@ fn place<T: Copy + Default>(src: &[T], align: usize) -> (Vec<T>, usize) {
     (v, o)
 }
 
-const STR_PATS: [&str; 3] = [STR_PAT, "x", "\u{20AC}\u{E9}\u{10348}\u{A5}\u{3042}"];
+pub(crate) const STR_PATS: [&str; 3] = [STR_PAT, "x", "\u{20AC}\u{E9}\u{10348}\u{A5}\u{3042}"];
 const FILLS8: [u8; 3] = [FILL8, 0x00, 0xFF];
 const FILLS16: [u16; 3] = [FILL16, 0x0000, 0xFFFF];
 
-fn fill_str_pattern(d: &mut [u8], variant: usize) {
+pub(crate) fn fill_str_pattern(d: &mut [u8], variant: usize) {
     let mut i = 0;
     'o: loop {
         for ch in STR_PATS[variant % 3].chars() {
